@@ -37,6 +37,26 @@ def shares_edge_all(t):
     return len(has) == len(t)
 
 
+def zero_volume_ambiguity(v, res, model_reply):
+    """True iff implementation and model both succeeded, differ exactly by the reversal of ALL triangles, and the enclosed volume of the
+    result is zero up to rounding (|sum| <= 1e-9 * sum of |terms|), so that its sign is not determined by the real-number model"""
+    if res[0] != "ok" or not model_reply.startswith("ok "):
+        return False
+    ti = np.asarray(res[1][1], dtype=np.int64)
+    toks = model_reply.split()
+    try:
+        nt = int(toks[2])
+        tm = np.array([int(x) for x in toks[3:3 + 3 * nt]], dtype=np.int64).reshape(nt, 3)
+    except Exception:  # noqa: BLE001
+        return False
+    if tm.shape != ti.shape or not np.array_equal(tm[:, [0, 2, 1]], ti) or int(toks[1]) + int(res[1][0]) != nt:
+        return False
+    vv = np.asarray(v, float)
+    p0, p1, p2 = vv[ti[:, 0]], vv[ti[:, 1]], vv[ti[:, 2]]
+    terms = np.einsum("ij,ij->i", p0, np.cross(p1 - p0, p2 - p0))
+    return abs(terms.sum()) <= 1e-9 * max(np.abs(terms).sum(), 1e-300)
+
+
 class Check(BaseCheck):
     id = "C10"
     audit_mod = "LapyVerif.Audit.C10"
@@ -58,6 +78,9 @@ class Check(BaseCheck):
             v = c["v"]; name = c["name"]; vd = c.get("vdtype")
             if k % 4 == 2:          # the same mesh far away from the origin (10^6..10^8 times its size): orientation does not depend on position
                 u = rng.normal(size=3); v = v + 10.0 ** rng.uniform(6, 8) * np.ptp(v, axis=0).max() * u / np.linalg.norm(u); name += "+far"; vd = None
+            elif k % 4 == 0 and vd is None:
+                # the same mesh in a very small length unit (coordinates ~1e-6 .. 1e-8: volumes down to 1e-24): orientation is scale free
+                v = v * 10.0 ** (-rng.uniform(5.5, 8.0)); name += "+tiny"
             yield dict(v=v, t=t, name=name, pres=c.get("pres"), vdtype=vd)
         # narrow index dtypes on meshes with more than 256 / many vertices (index arithmetic must not overflow)
         rng = gen.rng_for(self.seed, "c10-dtype")
@@ -96,7 +119,11 @@ class Check(BaseCheck):
                 got = "err Timeout"
             stats.case(core.mesh_key(v, t), cls=["class:" + c["name"], "result:" + got.split(" ")[0] + ("" if got.startswith("ok") else got[3:])],
                        sample=dict(name=c["name"], nv=len(v), nt=len(t), result=got[:40]))
-            if got != r:
+            if got != r and zero_volume_ambiguity(v, res, r):
+                # closed parts of equal volume oriented against each other (they touch in a vertex or are separate components): the enclosed
+                # volume is 0 in exact arithmetic, its rounded sign decides the global flip, and model and implementation sum in different order
+                stats.monitor("global flip decided by the sign of a numerically zero volume (compared up to reversal of all triangles)")
+            elif got != r:
                 fails.append(core.Failure("correspondence", "orient_ vs model", "%s: impl %s | model %s" % (c["name"], got[:100], r[:100]), c))
                 if len(fails) > 5:
                     break
